@@ -279,8 +279,8 @@ def run(ctx):
     alphabets = ctx.pick([[HEALTHY, BLIP0, BLIP1], [HEALTHY, BLIP0, FAIL0]],
                          [[HEALTHY, BLIP0, BLIP1, FAIL0, FAIL1], [HEALTHY, BLIP0, FAIL0]])
     K = ctx.pick(8, 16)
-    jobs = [{"N": N, "alphabets": alphabets, "K": K, "k": k, "R": ctx.pick(60, 1500)} for k in range(K)]
-    ctx.shard(jobs, timeout=ctx.pick(120, 900))
+    jobs = [{"N": N, "alphabets": alphabets, "K": K, "k": k, "R": ctx.pick(60, 6000)} for k in range(K)]
+    ctx.shard(jobs, timeout=ctx.pick(120, 1500))
     ctx.extra["bounds"] = {"max_packets": N, "states_per_destination_in_pass_0_and_1": alphabets,
                            "state_legend": {"9": "healthy", "0": "fails from 1st send", "1": "fails from 2nd send",
                                             "10": "only 1st send fails", "11": "only 2nd send fails"}}
